@@ -27,7 +27,7 @@ T = {
  "C15": ("runtime monitoring: Go race detector over a concurrent workload + sequential-reference equality + quiescent-state invariant on package globals (hook H4)", "zero race reports, every concurrent result equals its sequential reference (batches of similar inputs, wide layers, small graphs next to large ones, CPU starvation), globals idle and defaults unchanged after each batch", "the static enumeration of package-level writes named in the quantifier is NOT done (out of family); races are only seen on executed paths and occurred interleavings"),
  "C16": ("runtime monitoring: arithmetic identity oracle over executions", "band extent, neighbour gaps, leftmost x = 0, common midpoint (VAlign) / common right end (PackRight) hold exactly on every explored call", "connected inputs; exact for dyadic inputs, 1e-9 relative otherwise"),
  "C17": ("runtime monitoring: metamorphic relation under scaling by 2^k over executions", "scaling sizes and spacings by 2^k scales the canonical output bit for bit, k in -3..6", "network simplex positioner and splines are outside the property"),
- "C18": ("runtime monitoring: offline checker over recorded histories on a logical clock + quiescent-state invariant (hook H4)", "every monitor event lies inside a call that was given that monitor, also after panicking calls; layouts with and without monitor are identical; globals idle after every call", "events are attributed by logical interval, not by count"),
+ "C18": ("runtime monitoring: offline checker over recorded histories on a logical clock + quiescent-state invariant (hook H4)", "every monitor event lies inside a call that was given that monitor, also after panicking calls; layouts with and without monitor are identical; globals idle after every call; the library's own channel monitor delivers nothing after Layout returned", "events are attributed by logical interval, not by count"),
  "C19": ("runtime monitoring: reference-model oracle (visibility-graph Dijkstra + exact band containment) over executions of the real geom.Shortest", "returned path runs end->start, stays inside and has the length of the true shortest path on every generated well-formed corridor (sizes 2^-30 .. 2^30 times the usual ones included) and on the corridors phase 5 builds", "relative tolerance 1e-9; well-formedness as stated in the property"),
  "C20": ("runtime monitoring: independent De Casteljau containment oracle over executions of the real FitSpline; root finder judged against roots constructed in 256-bit arithmetic", "pieces start/end at the path ends, join exactly, stay within 0.05 of the corridor (sampled uniformly, at coordinate extrema and around every corner the piece approaches; corridors include long runs grazing a corner); solve3 returns every robustly real root and nothing that is not a root", "one known finding (curve leaving through a polygon vertex / piece end point) is listed in KNOWN_FINDINGS.txt; double roots are not demanded"),
 }
